@@ -2,10 +2,9 @@
 // entry points, hold no lock of their own, never call into the CodeHolder with the allocator lock held, and give the
 // span back on every failure path. CodeHolder::flatten / resolve_cross_section_fixups / code_size / relocate_to_base
 // are stubs here (nondeterministic outcome; they are properties C03/C04/C10); the allocator is the real one, empty,
-// with the real tree (JENV_REAL_TREE), the OS layer is the C09 stub.
-#define JENV_REAL_TREE 1
-#include <asmjit/core.h>
+// with the C09 tree model and OS-layer stubs.
 #include "../C09/jit_env.h"
+#include <asmjit/core.h>
 #include "../../../repo/asmjit/core/jitruntime.cpp"
 using namespace asmjit;
 using namespace jenv;
